@@ -11,7 +11,7 @@ whose numbers are normalised the way `Value::from_float` leaves them — a `floa
 integral value — with integers within ±2^53.
 -/
 import AgModel.Eval
-import AgProofs.Lemmas.ValueOrder
+import AgProofs.Lemmas.FromFloat
 
 namespace Ag.C05
 open Ag.F64 Ag.Value
@@ -114,6 +114,35 @@ theorem fromFloat_one : Value.fromFloat one = int 1 := by
   have h5 : F64.toI64 one = 1 := by decide
   simp [fromFloat, h4, h5]
 
+/-- in general: a `Float` that `from_float` returns never holds an integral value, i.e. it lies
+in the domain `inS` of the laws below -/
+theorem C05_from_float_normalised (f g : F64) (hc : Canon f) (h : Value.fromFloat f = float g) :
+    fractNonzero g = true ∧ inS (float g) = true := by
+  suffices hs : fractNonzero g = true from ⟨hs, hs⟩
+  cases f with
+  | nan =>
+    simp [fromFloat, F64.sub, F64.add, F64.abs, F64.lt, pcmp] at h
+    subst h; rfl
+  | inf b =>
+    cases b <;> simp [fromFloat, F64.floor, F64.sub, F64.neg, F64.add, F64.abs, F64.lt, pcmp] at h <;>
+      (subst h; rfl)
+  | fin s m e =>
+    rw [fromFloat_fin hc] at h
+    by_cases hr : returnsInt s m e = true
+    · rw [if_pos hr] at h; exact absurd h (by simp)
+    · rw [if_neg hr] at h
+      simp only [float.injEq] at h
+      subst h
+      simp only [returnsInt, Bool.or_eq_true, decide_eq_true_eq, not_or] at hr
+      rw [fractNonzero_iff]
+      refine ⟨by omega, fun h0 => hr.2 (fracSmall_of_zero h0)⟩
+
+example : Value.fromFloat half = float half ∧ Canon half := by
+  have := fromString_half
+  have h4 : F64.lt (F64.abs (F64.sub half (F64.floor half))) F64.epsilon = false := by
+    decide +kernel
+  exact ⟨by simp [fromFloat, h4], by unfold half; rw [canon_fin]; decide⟩
+
 /-! ### the laws on scalars with normalised numbers -/
 
 theorem C05_trichotomy_partial {a b : Value} (ha : inS a) (hb : inS b) : Laws a b := by
@@ -154,7 +183,7 @@ theorem C05_eq_refl {a : Value} (ha : inS a) : eq a a = true := by
 /-- numbers by numeric value, strings lexicographic, otherwise by rank (C05_cmp_numeric_lex_rank);
 the order facts themselves are proved in C09order.lean -/
 theorem C05_cmp_numeric_lex_rank :
-    (∀ {a b : Value} {x y : Dyadic}, inS a → inS b → num a = some x → num b = some y →
+    (∀ (a b : Value) (x y : Dyadic), inS a → inS b → num a = some x → num b = some y →
       ((lt a b = true ↔ x < y) ∧ (gt a b = true ↔ y < x) ∧ (eq a b = true ↔ x = y))) ∧
     (∀ s t : String, (lt (str s) (str t) = true ↔ compare s t = .lt) ∧
       (gt (str s) (str t) = true ↔ compare s t = .gt) ∧ (eq (str s) (str t) = true ↔ s = t)) ∧
@@ -177,5 +206,11 @@ theorem C05_cmp_numeric_lex_rank :
     simp only [lt, gt, eq, cmpResult, cmp_rank_lt a b h, BEq.beq]
     refine ⟨rfl, rfl, ?_⟩
     cases a <;> cases b <;> simp [rank] at h <;> simp [beq]
+
+/-- non-vacuity of the numeric clause: `0.5 < 1` as `Float` against `Int` -/
+example : lt (float half) (int 1) = true := by
+  have h := (C05_cmp_numeric_lex_rank.1 (float half) (int 1) (Dyadic.ofIntWithPrec 1 1) 1
+    (by decide) (by decide) (by decide) (by decide)).1
+  exact h.2 (by decide)
 
 end Ag.C05
